@@ -39,6 +39,15 @@
 (*   [kind, lits, head, meth, k, terms, op, bound, dec]   (unused fields   *)
 (* blank) with literals <<var, sign>> and terms <<var, sign, coef>>.       *)
 (* Post / Encode / SatSet are value-level and shared with SatTrace.tla.    *)
+(*                                                                         *)
+(* PROPAGATION STRENGTH (an extension, no part of C07's statement).  With  *)
+(* PROBE the machine applies unit propagation (Robdd!UnitProp) to the CNF  *)
+(* of a single posted constraint under every partial assignment and        *)
+(* records the outcome in the history.  ProbeSound must hold for every     *)
+(* kind (it follows from Exact); ProbeDetectsInconsistency and             *)
+(* ProbeArcConsistent are asserted for the kinds in ACKinds: the           *)
+(* SatLayer_ac_*.cfg files state for which kinds they hold and for which   *)
+(* TLC must produce a counterexample.                                      *)
 (***************************************************************************)
 EXTENDS Robdd
 
@@ -57,7 +66,10 @@ CONSTANTS Fams,        \* constraint kinds generated: subset of {"clause", "impl
           PbNeg, PbPos,\*   coefficients -PbNeg..PbPos
           PbBound,
           PbOps,       \*   operators
-          MaxMgrs, MaxPosts
+          MaxMgrs, MaxPosts,
+          PROBE,       \* TRUE: after the posts, probe the manager's CNF with unit propagation under every partial
+                       \*   assignment of the user variables (propagation strength; used with MaxPosts = 1)
+          ACKinds      \* the constraint kinds (KindTag) the propagation invariants are asserted for
 
 VARIABLES hist,      \* what happened so far: << [ev, m, c] .. >>  (ev = "new" | "post")
           mgrs,      \* << [allowed, cnf, cod, aux, posted] .. >>
@@ -147,6 +159,21 @@ Universe ==
 Admit(c) == c.kind = "pb" /\ c.dec = 1 => c.op \in {">=", "<="}
 
 (***************************************************************************)
+(* Propagation probes                                                      *)
+(***************************************************************************)
+\* finer kind of a constraint: which encoding path it takes
+KindTag(c) ==
+  CASE c.kind = "amo" -> IF c.meth = "quadratic" THEN "amo_quadratic" ELSE "amo_heule"
+    [] c.kind = "pb"  -> LET q == NormIneq(c) IN
+                         IF ClauseForm(q).kind # "no" THEN "pb_clause"
+                         ELSE IF q.op # ">=" THEN "pb_refused"
+                         ELSE IF c.dec = 1 THEN "pb_decomposition" ELSE "pb_plain"
+    [] OTHER -> c.kind
+LitPairs(xs) == { <<VarList[IF x > 0 THEN x ELSE -x], IF x > 0 THEN 1 ELSE 0>> : x \in xs }
+ProbeResult(cnf, rs) == LET U == UPOn(cnf, rs) IN
+  [conflict |-> IF U.conflict THEN 1 ELSE 0, implied |-> LitPairs(U.implied)]
+
+(***************************************************************************)
 (* State machine: managers are created, constraints posted, in any order   *)
 (***************************************************************************)
 SInit == /\ RInit
@@ -173,13 +200,35 @@ PostTo(i, c) ==
 PostAny == /\ Posts < MaxPosts
            /\ \E i \in DOMAIN mgrs : \E c \in Universe : Admit(c) /\ PostTo(i, c)
 
+\* one propagation probe of the manager that received the last (accepted) post
+Probe == /\ PROBE /\ Posts = MaxPosts /\ hist # <<>> /\ hist[Len(hist)].ev = "post" /\ ~lastref
+         /\ \E rs \in PartialAssigns :
+              hist' = Append(hist, [ev |-> "prop", m |-> lastm, c |-> Blank, rho |-> rs, tag |-> KindTag(lastc),
+                                    up |-> ProbeResult(mgrs[lastm].cnf, rs)])
+         /\ UNCHANGED <<vars, rvars, mgrs, lastm, lastc, lastref>>
+
+\* "Cofactor histories": after an inequality that reached a diagram, the residual inequality of one branch of
+\* its top decision (same variable names) is posted to the SAME manager.  Its diagram is a sub-diagram of
+\* the first one -- every node, the root included, is already in the store and already codified by this
+\* manager -- so only the assertion of the root is new.  (Not in Universe: the residual is over VarList[2..n].)
+Cofactor(c, branch, d) ==
+  LET q == NormIneq(c)
+      ts == SortDesc(q.lhs.t)
+      h == ts[1]
+      b2 == IF (h[2] = 1) = (branch = 1) THEN q.rhs - h[3] ELSE q.rhs     \* the top literal is true / false
+  IN [Blank EXCEPT !.kind = "pb", !.terms = Tail(ts), !.op = ">=", !.bound = b2, !.dec = d]
+PostCofactor == /\ Posts < MaxPosts /\ lastm > 0 /\ ~lastref
+                /\ KindTag(lastc) \in {"pb_plain", "pb_decomposition"}
+                /\ \E br \in {0, 1}, d \in {0, 1} : PostTo(lastm, Cofactor(lastc, br, d))
+
 \* behaviour generation: every maximal history is printed once
 EmitHist == /\ EMIT /\ Posts = MaxPosts /\ hist[Len(hist)].ev # "emitted"
+            /\ (PROBE => hist[Len(hist)].ev = "prop" \/ lastref)
             /\ PrintT(ToJson([events |-> hist]))
             /\ hist' = Append(hist, [ev |-> "emitted", m |-> 0, c |-> Blank])
             /\ UNCHANGED <<vars, rvars, mgrs, lastm, lastc, lastref>>
 
-SNext == NewManager \/ PostAny \/ EmitHist
+SNext == NewManager \/ PostAny \/ PostCofactor \/ Probe \/ EmitHist
 SSpec == SInit /\ [][SNext]_allvars
 
 (***************************************************************************)
@@ -197,6 +246,12 @@ NeverDropped == lastm > 0 => IF lastref THEN Refusable(lastc) ELSE mgrs[lastm].a
 \* the shared store stays canonical and the last diagram computes its inequality, whatever was built before
 StoreCanonical == Canonical
 LastDiagram == nb > 0 => NodeSem
+\* Propagation strength of the encoding of ONE constraint (the manager holds just lastc)
+Probed == hist # <<>> /\ hist[Len(hist)].ev = "prop"
+LastRho == hist[Len(hist)].rho
+ProbeSound == Probed => UPSoundOn(mgrs[lastm].cnf, mgrs[lastm].allowed, LastRho)
+ProbeDetectsInconsistency == (Probed /\ KindTag(lastc) \in ACKinds) => UPDetectsOn(mgrs[lastm].cnf, mgrs[lastm].allowed, LastRho)
+ProbeArcConsistent == (Probed /\ KindTag(lastc) \in ACKinds) => UPCompleteOn(mgrs[lastm].cnf, mgrs[lastm].allowed, LastRho)
 \* what Solve may answer (value-level, used by SatTrace)
 SolveOK(sat, model, allowed) == (sat = 1 <=> allowed # {}) /\ (sat = 1 => model \in allowed)
 =============================================================================
